@@ -287,6 +287,9 @@ func (w *Worker) checkFresh(extra *term.Term, wantModel bool) (solver.Result, ma
 	}
 	ref := w.TF.EmitFresh(&sb, extra)
 	sb.WriteString("(assert " + ref + ")\n")
+	if d := os.Getenv("GOSMT_DUMP_FRESH"); d != "" {
+		os.WriteFile(fmt.Sprintf("%s/fresh-%d-%d.smt2", d, os.Getpid(), w.freshQueries), []byte(sb.String()+"(check-sat)\n"), 0o644)
+	}
 	w.S2.Send(sb.String())
 	r := w.S2.Check()
 	w.freshQueries++
